@@ -16,7 +16,7 @@ META = {
     "hashseeds": {"quick": [0, 1], "thorough": [0, 1, 2, 3, 4, 5, 6, 7]},
     "shards": {"quick": 8, "thorough": 2},
     "bounds": {
-        "quick": "unroll: F-shape + 20 random DAGs, up to 6 injective output->input pairings (1..3 pairs) each, n=1..3; sequential_unroll: 3 sequential circuits (1,2,3 flops; ff(clk,d,q) and dff(CK,D,Q) boxes) x n=1..3 x add_flop_outputs x initial_values in {None,'0','1',dict} x remove_unloaded x ignore_pins in {None, clock pin}; ALL initial states and input sequences",
+        "quick": "unroll: F-shape + 20 random DAGs, up to 6 injective output->input pairings (1..3 pairs) each, n=1..4; sequential_unroll: 3 sequential circuits (1,2,3 flops; ff(clk,d,q) and dff(CK,D,Q) boxes) x n=1..4 x add_flop_outputs x initial_values in {None,'0','1',dict} x remove_unloaded x ignore_pins in {None, clock pin}; ALL initial states and input sequences",
         "thorough": "unroll: 150 random DAGs, up to 12 pairings, n=1..6; sequential_unroll n=1..6, dict initial values including 'x'",
     },
     "outside": ["state pairings that are not output->input", "circuits whose blackboxes are of more than one type", "circuits outside the families"],
@@ -57,7 +57,7 @@ def run(ctx):
     from circuitgraph import tx
 
     ctx.functions(tx.unroll, tx.sequential_unroll, tx.strip_blackboxes)
-    NS = (1, 2, 3) if ctx.quick else (1, 2, 3, 4, 5, 6)
+    NS = (1, 2, 3, 4) if ctx.quick else (1, 2, 3, 4, 5, 6)
     for cid, p in ctx.cases(all_cases(ctx)):
         if p[0] == "unroll":
             do_unroll(ctx, tx, cid, p[1], NS)
